@@ -357,6 +357,12 @@ def r3(ctx, R='R01.3'):
             return e
 
         def plus_one(v):
+            # `x + 1`, or the overflow-checked spelling `x.checked_add(1).expect(..)` / `.unwrap()` (same value whenever
+            # it returns; wrapping_ / saturating_add would re-issue or freeze ids and are NOT accepted)
+            while v.kind == 'call' and v.name.rsplit('::', 1)[-1] in ('expect', 'unwrap') and v.args:
+                v = v.args[0]
+            if v.kind == 'call' and v.name.rsplit('::', 1)[-1] == 'checked_add' and len(v.args) == 2:
+                v = type(v)('bin', name='Add', args=[v.args[0], v.args[1]])
             return v.kind == 'bin' and v.name == 'Add' and uncycle(v.args[0]).kind == 'place' and \
                 uncycle(v.args[0]).fields[-1:] == ('track_id',) and v.args[1].kind == 'const' and \
                 v.args[1].const.get('v') == '1'
@@ -364,7 +370,7 @@ def r3(ctx, R='R01.3'):
         for b, v, ln, _wb in writes:
             ctx.read(b)
             n += 1
-            ok = plus_one(v) and v.args[1].const.get('v') == '1'
+            ok = plus_one(v)
             ctx.check(ok, R, b, tname + ':counter-write', repr(v),
                       'the id counter of %s is written with %r (only `+= 1` keeps ids never re-issued)' % (tname, v), ln)
         ctx.check(len(writes) >= 1, R, adt, tname + ':counter-writes', '%d write site(s)' % len(writes),
